@@ -85,6 +85,9 @@ impl Acc {
     }
     /// Append bytes. Capacity overflow is an assertion failure, never a silent truncation.
     pub fn push(&mut self, data: &[u8]) {
+        if self.kind == HMAC && self.key_len > 0 && span_record(data) {
+            return; // span mode: only where the bytes come from is recorded (large inputs)
+        }
         assert!(self.len + data.len() <= CAP, "verif_oracle: message exceeds oracle capacity");
         let mut i = 0;
         while i < data.len() {
@@ -530,3 +533,50 @@ pub fn assume_collision_free() {
 }
 #[cfg(not(kani))]
 pub fn assume_collision_free() {}
+
+// ------------------------------------------------------------------------------------------------
+// span mode for large HMAC inputs: instead of copying message bytes, record that the pieces fed to HMAC
+// are consecutive sub-slices of one buffer (so chunked processing of inputs far larger than CAP can be
+// checked: every byte of the buffer is hashed exactly once, in order)
+// ------------------------------------------------------------------------------------------------
+pub struct SpanLog {
+    pub on: bool,
+    pub next: *const u8,
+    pub total: usize,
+    pub pieces: usize,
+    pub contiguous: bool,
+}
+pub static mut SPANS: SpanLog = SpanLog { on: false, next: core::ptr::null(), total: 0, pieces: 0, contiguous: true };
+
+pub fn span_begin(base: *const u8) {
+    unsafe {
+        SPANS.on = true;
+        SPANS.next = base;
+        SPANS.total = 0;
+        SPANS.pieces = 0;
+        SPANS.contiguous = true;
+    }
+}
+fn span_record(data: &[u8]) -> bool {
+    unsafe {
+        if !SPANS.on {
+            return false;
+        }
+        if data.len() > 0 {
+            if data.as_ptr() != SPANS.next {
+                SPANS.contiguous = false;
+            }
+            SPANS.next = data.as_ptr().add(data.len());
+            SPANS.total += data.len();
+        }
+        SPANS.pieces += 1;
+        true
+    }
+}
+/// (all pieces consecutive from the base pointer, total bytes, number of update calls)
+pub fn span_end() -> (bool, usize, usize) {
+    unsafe {
+        SPANS.on = false;
+        (SPANS.contiguous, SPANS.total, SPANS.pieces)
+    }
+}
